@@ -1095,9 +1095,12 @@ fn parse_deflocalkeys(
                     })
                 })
                 .and_then(|osc| {
-                    OsCode::from_u16(osc).ok_or_else(|| {
-                        anyhow_expr!(v, "Unknown number in {def_local_keys_variant}: {osc}")
-                    })
+                    // The layer tables have KEYS_IN_ROW columns; KEY_MAX itself is not a usable key.
+                    OsCode::from_u16(osc)
+                        .filter(|_| usize::from(osc) < KEYS_IN_ROW)
+                        .ok_or_else(|| {
+                            anyhow_expr!(v, "Unknown number in {def_local_keys_variant}: {osc}")
+                        })
                 })?,
             None => bail_expr!(key_expr, "Key without a number in {def_local_keys_variant}"),
         };
